@@ -1,4 +1,5 @@
 import MesonModel.Det.Model
+import MesonModel.Det.EnvModel
 import Driver.Proto
 /- driver commands of area `det` (C06 emitters) -/
 namespace Driver.Det
@@ -83,8 +84,59 @@ def parseOps (f : String) : List (String × Nat × Nat × Nat) :=
     | [k, i, c, m] => some (k, natOf i, natOf c, natOf m)
     | _ => none
 
+/-! environment → options / arguments -/
+
+def showDict (d : OptDict) : String :=
+  ";".intercalate (d.map fun e => toString e.1.machine ++ ":" ++ encodeStr e.1.name ++ "=" ++ encodeStrList e.2)
+
+def splitSemi (f : String) : List String := if f.trimAscii.isEmpty then [] else f.splitOn ";"
+
+def padLists (n : Nat) (l : List (List Str)) : List (List Str) := l ++ List.replicate (n - l.length) []
+
+/-- one `add_lang_args` query: `lang:machine:driver:paFlag:paList:plFlag:plList` -/
+def runQuery (envOpts : OptDict) (q : String) : String :=
+  match q.splitOn ":" with
+  | [lang, m, drv, paf, pa, plf, pl] =>
+    let r := addLangArgs (if paf == "1" then some (decodeStrList pa) else none)
+               (if plf == "1" then some (decodeStrList pl) else none) envOpts (decodeStr lang) (natOf m) (drv == "1")
+    encodeStrList r.1 ++ "/" ++ encodeStrList r.2
+  | _ => "bad-query"
+
+def handleEnv (fs : List String) : String :=
+  match fs with
+  | [cross, first, wb, wh, langs, lvars, nlv, nlk, ld, cpp, en, ev, sk, sv, oms, onames, queries] =>
+    let names := decodeStrList en
+    let env : EnvMap := names.zip (padTo names.length (decodeStrList ev))
+    let skeys := decodeStrList sk
+    let tbl := skeys.zip (padLists skeys.length ((splitSemi sv).map decodeStrList))
+    let ls := decodeStrList langs
+    let nlvs := decodeStrList nlv
+    let c : EnvCfg :=
+      { isCross := cross == "1", firstInvocation := first == "1",
+        isWindows := fun m => if m = 0 then wb == "1" else wh == "1", pathsep := ':',
+        split := fun v => (tbl.lookup v).getD [],
+        langFlags := ls.zip (padTo ls.length (decodeStrList lvars)),
+        nonLang := nlvs.zip (padTo nlvs.length (decodeStrList nlk)),
+        ldLangs := decodeStrList ld, cppLangs := decodeStrList cpp }
+    let onm := decodeStrList onames
+    let options : OptDict := ((natList oms).zip onm).map fun e => (envKey e.1 e.2, [])
+    let r := setDefaultOptionsFromEnv c env options
+    showDict (r.1.drop options.length) ++ "#" ++ showDict r.2 ++ "#" ++
+      "!".intercalate ((splitSemi queries).map (runQuery r.2))
+  | _ => "bad-op"
+
+def handleEnvTable : String :=
+  "#".intercalate [encodeStrList (liveLangFlags.map Prod.fst), encodeStrList (liveLangFlags.map Prod.snd),
+                   encodeStrList (liveNonLang.map Prod.fst), encodeStrList (liveNonLang.map Prod.snd),
+                   encodeStrList (sortedStrs liveLdLangs), encodeStrList (sortedStrs liveCppLangs)]
+
 def handle (cmd : String) (fs : List String) : String :=
   match cmd, fs with
+  | "envargs", fs => handleEnv fs
+  | "envtable", _ => handleEnvTable
+  | "buildrpaths", [l] => encodeStrList (installPlanBuildRpaths (decodeStrList l))
+  | "depacc", [scan, json, linked, od] =>
+    showRes (depaccumulateLine (decodeStr scan) (decodeStr json) (decodeStrList linked) (decodeStrList od))
   | "sorted", [l] => encodeStrList (sortedStrs (decodeStrList l))
   | "quote", [b, t] => showRes (ninjaQuote (b == "1") (decodeStr t))
   | "buildline", [outs, imp, rule, rsp, ins, deps, od] =>
